@@ -14,11 +14,21 @@ def SPEC(tier):
     cfgs = [Cfg('san-pure', SANLIB + ['-DGLM_FORCE_PURE'], compiler='clang++', opt='-O1'),
             Cfg('san-avx2', SANLIB + ['-DGLM_FORCE_INTRINSICS', '-mavx2'], compiler='clang++', opt='-O1', aligned=True),
             Cfg('san-sse2', SANLIB + ['-DGLM_FORCE_INTRINSICS', '-msse2'], compiler='clang++', opt='-O1', aligned=True),
+            # unoptimised: at -O1 a memcpy that over-reads a local is folded away before AddressSanitizer instruments it
+            Cfg('san-avx2-defalign-O0', SANLIB + ['-DGLM_FORCE_INTRINSICS', '-mavx2', '-DGLM_FORCE_DEFAULT_ALIGNED_GENTYPES'], compiler='clang++', opt='-O0', aligned=True),
             Cfg('san-avx2-swizzle', SANLIB + ['-DGLM_FORCE_INTRINSICS', '-mavx2', '-DGLM_FORCE_SWIZZLE'], compiler='clang++', opt='-O1', aligned=True)]
     st = driver_stage('C20', cfgs, 'class', 1500, 30000, name='optable.san')
     st.cmd = list(SAN)
     st.kind = 'san'
     stages.append(st)
+    # re-entrancy: ThreadSanitizer builds of the table, every operation evaluated by two threads at once
+    TSANLIB = ['-g', '-fsanitize=thread', '-fno-omit-frame-pointer']
+    tcfgs = [Cfg('tsan-pure', TSANLIB + ['-DGLM_FORCE_PURE'], compiler='clang++', opt='-O1'),
+             Cfg('tsan-avx2', TSANLIB + ['-DGLM_FORCE_INTRINSICS', '-mavx2'], compiler='clang++', opt='-O1', aligned=True)]
+    tt = driver_stage('C20', tcfgs, 'threads', 24, 600, name='optable.tsan')
+    tt.cmd = ['clang++', '-O1', '-g', '-fsanitize=thread', '-fno-omit-frame-pointer'] + props.vlib.COMMON
+    tt.env.update({'TSAN_OPTIONS': 'exitcode=0:halt_on_error=0:suppress_equal_stacks=0:suppress_equal_addresses=0:report_signal_unsafe=0:log_path=/dev/null'})
+    stages.append(tt)
     for pid, scale in sorted((THOROUGH if tier == 'thorough' else QUICK).items()):
         if pid not in props.PROPS:
             continue
@@ -30,7 +40,7 @@ def SPEC(tier):
         if pre:
             s.prebuild = (lambda p, opid: (lambda stage, _pid, tier_: p(stage, opid, tier_)))(pre, pid)
         stages.append(s)
-    return {'stages': stages, 'only_key_prefixes': ['ubsan/', 'crash'],
+    return {'stages': stages, 'only_key_prefixes': ['ubsan/', 'crash', 'tsan/'],
             'assumptions': props.COMMON_ASSUME + ['only what clang 14 ASan/UBSan can observe: type punning through unions and strict-aliasing violations are invisible to it (they are covered only indirectly by the O0/O2 differential of C15)',
                                                    'UBSan reports inside harness code (outside glm/) are logged and ignored; the runtime reports each source location once per process, so one case is recorded per UB site'],
             'rule': 'the generators of the other properties (exhaustive small-integer domains, subsampled float sweeps, lattices, random cases) and the operation table are executed in ASan+UBSan builds (pure path, AVX2 path, SSE2 path); '
